@@ -169,7 +169,8 @@ class Statement(object):
         """
         if not self.code_pkg.address.is_none():
             return self.code_pkg.address.int
-        if address + self.code_pkg.size > 0x10000 or (address > 0xFFFF and self.label):
+        has_address_label = self.label and not self.instruction.is_pseudo_define
+        if address + self.code_pkg.size > 0x10000 or (address > 0xFFFF and has_address_label):
             raise TranslationError("address exceeds $FFFF", self)
         if address > 0xFFFF:
             # A directive that follows the last byte of memory places nothing
